@@ -31,6 +31,7 @@ KindsNoB   == {"a", "meta", "sysex"}
 KindsAM    == {"a", "meta"}
 Pats3      == {<<0, 0, 1>>, <<0, 1, 1>>, <<1, 1, 1>>}
 Pats3q     == {<<0, 0, 1>>, <<1, 1, 1>>}
+Pats3one   == {<<0, 0, 1>>}
 Pats4      == {<<0, 0, 1, 1>>, <<0, 1, 1, 1>>, <<0, 0, 0, 1>>}
 Pats4q     == {<<0, 0, 1, 1>>}
 SelAll     == {{}}
@@ -57,7 +58,7 @@ Send(i) == /\ CanSend(P, cur, i)
            /\ now >= HeadEv(P, cur, i).us                     \* never before the scheduled time
            /\ LET o == [port |-> PortOf(P, i), m |-> HeadEv(P, cur, i).m, at |-> now]
               IN /\ sent' = Append(sent, [i |-> i, p |-> cur[i], port |-> o.port, at |-> now])
-                 /\ acc'  = UNION {Succ(P, c, o) : c \in acc}
+                 /\ acc'  = UNION {Succ(P, Active(P), c, o) : c \in acc}
            /\ cur' = Advance(cur, i)
            /\ UNCHANGED <<P, now>>
 Rest    == AllDone(P, cur) /\ now = MaxNow /\ UNCHANGED vars
@@ -66,7 +67,7 @@ Next    == Tick \/ Rest \/ \E i \in 1..NTracks(P) : Skip(i) \/ Send(i)
 \* the acceptor as a behaviour spec: any attribution it can infer
 NextJ == \/ \E i \in 1..NTracks(P) : \E p \in 1..Len(P.tracks[i]) : \E t \in now..MaxNow :
               LET o == [port |-> PortOf(P, i), m |-> P.tracks[i][p].m, at |-> t]
-                  v == Via(P, cur, i, p, o)
+                  v == Via(P, Active(P), cur, i, p, o)
               IN /\ v # <<>>
                  /\ cur' = v[1] /\ now' = t
                  /\ sent' = Append(sent, [i |-> i, p |-> p, port |-> o.port, at |-> t])
